@@ -17,10 +17,17 @@ modifier bits / key fields / `unicode` calls, what each arm assigns, writes or r
 -/
 import VaxisModel.Model.KeyBody
 import VaxisModel.Lemmas.KeyBodyPin
+import VaxisModel.Lemmas.GoInterp
 
 namespace VaxisModel.Props.C09Body
 open VaxisModel.Model.GoBody VaxisModel.Model.GoInterp VaxisModel.Model.Key VaxisModel.Model.KeyBody
-open VaxisModel.Gen.Keys
+open VaxisModel.Gen.Keys VaxisModel.Lemmas.GoInterp
+
+theorem const_ModShift : List.lookup "ModShift" keyConstEnv = some (.int (1 : Nat)) := rfl
+theorem const_ModCapsLock : List.lookup "ModCapsLock" keyConstEnv = some (.int (64 : Nat)) := rfl
+theorem const_ModNumLock : List.lookup "ModNumLock" keyConstEnv = some (.int (128 : Nat)) := rfl
+
+def exUni : Uni := ⟨fun _ => false, fun _ => false, fun _ => false, fun _ => false, fun _ => false, id, id, fun _ _ => false⟩
 
 /-- Every node of the four bodies was translated (nothing degraded to `.unknown`). -/
 theorem key_bodies_fully_recognised :
@@ -32,5 +39,32 @@ theorem facts_matches_body : VaxisModel.Gen.KeyBody.matchesBody = VaxisModel.Lem
 theorem facts_matchString_body : VaxisModel.Gen.KeyBody.matchStringBody = VaxisModel.Lemmas.KeyBodyPin.matchStringBody := rfl
 theorem facts_string_body : VaxisModel.Gen.KeyBody.stringBody = VaxisModel.Lemmas.KeyBodyPin.stringBody := rfl
 theorem facts_decodeKey_body : VaxisModel.Gen.KeyBody.decodeKeyBody = VaxisModel.Lemmas.KeyBodyPin.decodeKeyBody := rfl
+
+/-! ## The interpreted extracted bodies are the hand-written model -/
+
+set_option maxHeartbeats 400000 in
+set_option maxRecDepth 4000 in
+set_option linter.unusedSimpArgs false in
+/-- **matches_body_eq_model.** Running the body of `Key.Matches` as extracted from key.go on this
+    run gives, for every `unicode` oracle, key event, binding rune and mask, exactly the value of the
+    hand-written `Model.Key.matches` — so `shift_forgiveness`, `match_strong_mods`,
+    `locks_irrelevant`, … are theorems about the code's own decision structure (the order of the six
+    rules, every guard, the three `&^` chains). -/
+theorem matches_body_eq_model (u : Uni) (k : Key) (key : Int) (m : Nat) :
+    matchesGen u k key m = some («matches» u k key m) := by
+  unfold matchesGen VaxisModel.Gen.KeyBody.matchesBody
+  simp only [Ss.ofList, Es.ofList, execSs, execS, lhsNames, evalEs, evalE, VaxisModel.Model.GoInterp.bind, keyFields, zeroOf, rangeItems, loop,
+    assignVals, hasErr, bindAll, List.lookup, List.map, List.append, String.reduceEq, String.reduceBEq, String.reduceAppend, ctx, noFuncs,
+    reduceIte, or_false, false_or, or_self, List.length, Option.map, List.cons_append, List.nil_append,
+    andThen_norm, andThen_ret, andThen_err, andThen_ite, branch_bool, binop_land, binop_eq_int, binop_eq_str, binop_ne_int, binop_band, binop_bor, binop_andNot, unop_not,
+    Bool.false_eq_true, callFn_string, callFn_isLetter, callFn_isGraphic, callFn_isLower, callFn_toUpper, const_ModShift, const_ModCapsLock, const_ModNumLock,
+    Int.toNat_natCast, Int.toNat_zero, Nat.zero_or, retBool_ite, retBool_ret]
+  unfold «matches»
+  simp only [some_ite, Bool.and_eq_true, decide_eq_true_eq, Int.natCast_inj, ModCapsLock, ModNumLock, ModShift, Bool.not_eq_true', bne_iff_ne, ne_eq, Bool.not_eq_eq_eq_not, Bool.not_true, decide_eq_false_iff_not]
+  simp only [Int.natCast_eq_zero]
+  repeat' split
+  all_goals (first | rfl | grind)
+
+example : matchesGen VaxisModel.Props.C09Body.exUni { keycode := 97, mods := 5 } 97 5 = some true := by decide +kernel
 
 end VaxisModel.Props.C09Body
